@@ -80,6 +80,18 @@ def flush_rule(facts, f3):
                 f3.violate("flush/ignored", "the result of flush is discarded", where=b.bbs[fb]["t"]["sp"])
 
 
+
+def is_in_pattern(body, node):
+    """is `node` (a Path) part of a match-arm / let pattern rather than an expression?"""
+    for m in find(body, lambda n: n.get("k") == "Match"):
+        for a in m["arms"]:
+            if find(a["pat"], lambda x: x is node):
+                return True
+    for l in find(body, lambda n: n.get("k") == "Let"):
+        if find(l.get("pat") or {}, lambda x: x is node):
+            return True
+    return False
+
 def run(facts, tier):
     t0 = time.time()
     rules = []
@@ -125,9 +137,13 @@ def run(facts, tier):
     if not ok2:
         t1.violate("usage", "a command-line usage error does not exit with status 2")
     # NoOutput / FalseOrNull only under exit_status
-    rm = facts.hir_fn("jaq::real_main")
-    if rm:
-        def under_exit_status(node_sp):
+    # (searched in every function of the driver crate, so that moving code out of real_main keeps the rule armed)
+    n_ctor = 0
+    for rm in facts.hir("jaq"):
+        if rm.get("test"):
+            continue
+
+        def under_exit_status(node_sp, rm=rm):
             for iff in find(rm["body"], lambda n: n.get("k") == "If"):
                 c = strip(iff["c"])
                 if c.get("k") == "Field" and c["name"] == "exit_status":
@@ -136,24 +152,32 @@ def run(facts, tier):
                         return True
             return False
         for n in find(rm["body"], lambda n: n.get("k") == "Path" and (n["path"].get("def") or "") in ("jaq::Error::NoOutput", "jaq::Error::FalseOrNull")):
+            if is_in_pattern(rm["body"], n):
+                continue
+            n_ctor += 1
             ok = under_exit_status(n["sp"])
-            t1.examined(("exit_status-only", n["path"]["def"]), True, {"constructed": n["path"]["def"], "only_under_exit_status": ok})
+            t1.examined(("exit_status-only", n["path"]["def"]), True, {"constructed": n["path"]["def"], "in": rm["def"], "only_under_exit_status": ok})
             if not ok:
-                t1.violate(f"exit-status-only/{n['path']['def']}", f"`{n['path']['def']}` is produced without --exit-status", where=n["sp"])
-    rmir = facts.mir_fn("jaq::real_main")
-    if rmir is None:
-        t1.missing_anchor("jaq::real_main (MIR)")
-    else:
+                t1.violate(f"exit-status-only/{n['path']['def']}", f"`{n['path']['def']}` is produced without --exit-status (in {rm['def']})", where=n["sp"])
+    if n_ctor < 2:
+        t1.missing_anchor("constructions of Error::NoOutput / Error::FalseOrNull in the driver")
+    merging = []
+    nb = 0
+    for crate, rmir in facts.all_mir():
+        if crate != "jaq" or rmir.get("test") or rmir["def"].startswith("jaq::funs::repl") or (rmir.get("root") or "").startswith("jaq::funs::repl"):
+            continue
+        nb += 1
         b = Body(rmir)
-        merging = []
         for i, t in b.calls():
             c = Body.callee(t) or ""
             if re.search(r"core::option::Option::<T>::(or|or_else|xor|and|zip|get_or_insert|get_or_insert_with|insert|filter)$", c):
                 if any("core::option::Option<bool>" in b.locals[l]["ty"] for l in b.arg_locals(i)):
                     merging.append((c.split("::")[-1], t["sp"]))
-        t1.examined("last-overwritten", True, {"exit_status_value_merged_with_earlier_runs": merging})
-        if merging:
-            t1.violate("last-merged", f"the value that decides the --exit-status code is combined with the result of earlier files ({merging[0][0]}): it must be the last output of the whole run", where=merging[0][1])
+    if nb < 20:
+        t1.missing_anchor("MIR bodies of the driver crate")
+    t1.examined("last-overwritten", True, {"exit_status_value_merged_with_earlier_runs": merging})
+    if merging:
+        t1.violate("last-merged", f"the value that decides the --exit-status code is combined with the result of earlier files ({merging[0][0]}): it must be the last output of the whole run", where=merging[0][1])
     rules.append(t1.finish())
 
     # ---------------- T17.2 options
